@@ -8,7 +8,7 @@ import numpy as np
 
 from . import ref
 from .blocks import Blk, group_layout
-from .impl import Pen, Dfit, compiled, classify_exc, gen_matrix, to_csc, seed_numba
+from .impl import Pen, Dfit, compiled, classify_exc, gen_matrix, to_csc, case_csc, seed_numba
 from .solvers import gen_pen, normalise_cols
 
 SOLVERS = ("AndersonCD", "ProxNewton", "GramCD", "FISTA", "LBFGS", "GroupBCD", "GroupProxNewton",
@@ -35,7 +35,8 @@ class BBCase:
     def describe(self):
         d = dict(solver=self.solver, datafit=self.df.describe(), penalty=self.pen.describe(),
                  X=self.X.tolist(), y=np.asarray(self.y).tolist(), knobs=self.knobs, sparse=self.sparse,
-                 w_init=None if self.w_init is None else np.asarray(self.w_init).tolist(), label=self.label)
+                 w_init=None if self.w_init is None else np.asarray(self.w_init).tolist(), label=self.label,
+                 explicit_zeros=getattr(self, 'explicit_zeros', None))
         if self.family == "sep":
             d.update(weights=self.wts.tolist(), sw=self.sw.tolist())
         if self.family == "group":
@@ -134,6 +135,45 @@ class BBCase:
             v = max(v, float(np.max(np.abs(self.grad_b(ww, bb)))))
         return v, [float(x) for x in d]
 
+    def cert_fixpoint(self, w):
+        """fixed-point residual max_blocks || w_b - prox(w_b - grad_b / L_b, 1 / L_b) || with the gradient recomputed from
+        X, y, w and the block constants recomputed by SVD / the documented formulas; the prox is the compiled kernel
+        (held to the documented prox objective by C07).  Blocks with L_b = 0 (null columns / groups) are skipped, as
+        documented ("nothing to gain")."""
+        solver, datafit, penalty = self.build()
+        ww, bb = self.split(w)
+        g = self.grad(ww, bb)
+        n = self.X.shape[0]
+        r = 0.0
+        if self.family == "sep":
+            c = {"quadratic": 1.0, "wquadratic": None, "logistic": 0.25, "huber": 1.0}.get(self.df.kind, "skip")
+            if c == "skip":
+                return None
+            for j in range(self.X.shape[1]):
+                if self.df.kind == "wquadratic":
+                    L = float(np.sum(self.sw * self.X[:, j] ** 2) / np.sum(self.sw))
+                else:
+                    L = c * float(np.sum(self.X[:, j] ** 2)) / n
+                if L == 0:
+                    continue
+                r = max(r, abs(ww[j] - penalty.prox_1d(ww[j] - g[j] / L, 1 / L, j)))
+        elif self.family == "group":
+            c = 1.0 if self.df.kind == "quadratic" else 0.25
+            for k, idx in enumerate(self.groups):
+                L = c * float(np.linalg.norm(self.X[:, idx], ord=2) ** 2) / n
+                if L == 0:
+                    continue
+                r = max(r, float(np.linalg.norm(ww[idx] - penalty.prox_1group(ww[idx] - g[idx] / L, 1 / L, k))))
+        else:
+            for j in range(self.X.shape[1]):
+                L = float(np.sum(self.X[:, j] ** 2)) / n
+                if L == 0:
+                    continue
+                r = max(r, float(np.linalg.norm(ww[j] - penalty.prox_1feat(ww[j] - g[j] / L, 1 / L, j))))
+        if self.fit_intercept:
+            r = max(r, float(np.max(np.abs(self.grad_b(ww, bb)))))
+        return r
+
     def feasible(self, w):
         ww, _ = self.split(w)
         pen = self.pen
@@ -151,7 +191,7 @@ class BBCase:
 def run_case(case):
     n, p = case.X.shape
     solver, datafit, penalty = case.build()
-    Xin = to_csc(case.X) if case.sparse else np.asfortranarray(case.X)
+    Xin = case_csc(case) if case.sparse else np.asfortranarray(case.X)
     y = np.asfortranarray(case.y.copy()) if case.family == "mtl" else case.y.copy()
     w_init = Xw_init = None
     if case.w_init is not None:
@@ -206,10 +246,33 @@ def o_cert(case, res, rep, rng):
     w, obj, stop = out
     tol = tol_of(case)
     strat = case.knobs.get("ws_strategy", case.knobs.get("opt_strategy", "subdiff"))
-    if not (stop <= tol) or not np.all(np.isfinite(w)) or strat != "subdiff":
-        return
     if case.solver == "FISTA":
         return      # FISTA's reported value is not claimed to be a certificate by C01 (see C17)
+    if strat == "fixpoint" and case.solver in ("GroupBCD", "MultiTaskBCD", "ProxNewton") and np.all(np.isfinite(w)):
+        # fixed-point strategy: the reported value is the fixed-point residual; recompute it independently
+        try:
+            v = case.cert_fixpoint(w)
+        except Exception:    # noqa: BLE001  (a penalty without the kernel: nothing to compare)
+            v = None
+        if v is not None:
+            ww, _ = case.split(w)
+            slack = 1e-6 * (1 + float(np.max(np.abs(case.X))) * (1 + (float(np.max(np.abs(ww))) if ww.size else 0)))
+            if case.solver != "ProxNewton":
+                if stop <= tol and not v <= tol * (1 + 1e-5) + slack:
+                    rep.violate("stop_crit <= tol was returned (fixed-point strategy) but the fixed-point residual recomputed "
+                                "from X, y, w is larger", dict(case.signature(site=f"{case.solver}.solve"), kind="certificate"),
+                                case=case.describe(), impl_output=dict(w=np.asarray(w).tolist(), stop_crit=float(stop)),
+                                oracle=dict(name="fixed-point residual", violation=v, tol=tol))
+                big = case.knobs.get("max_iter", 0) >= 50 and case.knobs.get("max_epochs", 0) >= 100
+                if big and not stop <= tol and v <= 1e-3 * tol and case.pen.kind in ("wgl2", "l21"):
+                    rep.violate("the solver exhausts a generous budget at a point whose fixed-point residual is (far) below the "
+                                "tolerance: the reported stopping value does not describe the returned point",
+                                dict(case.signature(site=f"{case.solver}.solve"), kind="stop-value-stuck"),
+                                case=case.describe(), impl_output=dict(w=np.asarray(w).tolist(), stop_crit=float(stop)),
+                                oracle=dict(name="fixed-point residual", violation=v, tol=tol))
+        return
+    if not (stop <= tol) or not np.all(np.isfinite(w)) or strat != "subdiff":
+        return
     v, d = case.cert(w, rng)
     ww, _ = case.split(w)
     slack = 1e-6 * (1 + float(np.max(np.abs(case.X))) * (1 + (float(np.max(np.abs(ww))) if ww.size else 0)))
@@ -327,6 +390,13 @@ ORACLES = dict(cert=o_cert, stop_value=o_stop_value, buffer=o_buffer, feasible=o
 # ------------------------------------------------------------------ generators
 
 def gen_bb(rng, solver, degenerate=False, warm=None):
+    case = _gen_bb(rng, solver, degenerate, warm)
+    if case.sparse and rng.random() < 0.4:
+        case.explicit_zeros = rng.randrange(1 << 30)    # CSC with explicitly stored zeros (null columns included)
+    return case
+
+
+def _gen_bb(rng, solver, degenerate=False, warm=None):
     n, p = rng.randrange(3, 13), rng.randrange(1, 10)
     mode = rng.choice(["gauss", "gauss", "dyadic", "sparse"] + (["degenerate"] * 3 if degenerate else []))
     X = gen_matrix(rng, n, p, mode)
@@ -463,10 +533,13 @@ def from_description(d):
     df = Dfit(dfd["kind"], dfd.get("delta"))
     X = np.asfortranarray(np.array(d["X"], float))
     y = np.array(d["y"], float)
-    return BBCase(d["solver"], fam, df, pen, X, y, d["knobs"],
+    case = BBCase(d["solver"], fam, df, pen, X, y, d["knobs"],
                   sw=None if "sw" not in d else np.array(d["sw"], float),
                   wts=None if "weights" not in d else np.array(d["weights"], float),
                   groups=d.get("groups"), wgs=None if d.get("weights_groups") is None else np.array(d["weights_groups"]),
                   wfs=None if d.get("weights_features") is None else np.array(d["weights_features"]),
                   sparse=d["sparse"], w_init=None if d["w_init"] is None else np.array(d["w_init"], float),
                   label=d.get("label", ""))
+    if d.get("explicit_zeros") is not None:
+        case.explicit_zeros = d["explicit_zeros"]
+    return case
